@@ -9,10 +9,10 @@ import (
 	"strings"
 
 	"github.com/taskctl/taskctl/internal/vh/common"
-	"github.com/taskctl/taskctl/vrt"
-	"github.com/taskctl/taskctl/vrt/vsync"
 	"github.com/taskctl/taskctl/pkg/output"
 	"github.com/taskctl/taskctl/pkg/task"
+	"github.com/taskctl/taskctl/vrt"
+	"github.com/taskctl/taskctl/vrt/vsync"
 )
 
 // ---- C19 (concurrent part): several tasks write through their own decorators into one sink ----
